@@ -4,6 +4,8 @@ worktree of /repo under /tmp/seedeval (the harness's replace directive is pointe
 /repo and /verif are untouched and other work can go on.  Results -> seeded/<id>/meta.json 'detection'.
 usage: seed_eval.py [--tier quick] [--only C03-m1,...] [--extra C04-m3=C02,C15]"""
 import sys, os, json, subprocess, shutil, glob, re, argparse, time
+# every seeded variant of /repo compiles anew: keep the shared Go build cache from filling the disk
+subprocess.run("find /root/.cache/go-build -type f -mmin +180 -delete 2>/dev/null", shell=True)
 ap = argparse.ArgumentParser()
 ap.add_argument('--tier', default='quick')
 ap.add_argument('--only', default='')
